@@ -223,6 +223,8 @@ type zzStep struct {
 	ctxValue string
 	// noContext: the step answers without any context
 	noContext bool
+	// namespace the desired resources are in ("" = cluster scoped)
+	namespace string
 	// explicit metadata.name the function gives desired resource i ("" = none)
 	names []string
 	// emptyMessages: results carry no message text
@@ -308,6 +310,10 @@ func (r *zzRunner) RunFunction(_ context.Context, name string, req *fnv1.RunFunc
 	for i, want := range st.desired {
 		if want {
 			res := zzDesiredResource(zzResNames[i])
+			if st.namespace != "" {
+				md, _ := structpb.NewStruct(map[string]any{"namespace": st.namespace})
+				res.Resource.Fields["metadata"] = structpb.NewStructValue(md)
+			}
 			if i < len(st.names) && st.names[i] != "" {
 				m := res.GetResource().AsMap()
 				m["metadata"] = map[string]any{"name": st.names[i]}
